@@ -19,13 +19,23 @@ static void vp_node_idle(nni_list_node *n) { n->ln_next = NULL; n->ln_prev = NUL
 /* objects are statics (nondeterministic contents under DFCC, havocked again here): their addresses are
  * constants for the symbolic execution, so every list link the code follows is a constant */
 static req0_sock vp_sock_obj;
-static req0_ctx  vp_ctx_obj[2];
-static req0_pipe vp_pipe_obj[3];
+static req0_ctx  vp_ctx_a, vp_ctx_b;            /* separate objects (OBJ_OK / DISTINCT speak about objects) */
+static req0_pipe vp_pipe_a, vp_pipe_b, vp_pipe_c;
+static struct nng_msg vp_msg_a, vp_msg_b;         /* retained requests of the two contexts (where harness-built) */
 static unsigned  vp_nctx, vp_npipe;
+/* the constant part of a context state of kind k (see PC_KPRE_k in contracts.h): the contract states the same */
+static void vp_ctx_kind(req0_ctx *c, int k, struct nng_msg *m)
+{
+	c->send_aio = NULL;
+	if (k == 0 || k == 2) { c->req_msg = NULL; c->recv_aio = NULL; }
+	if (k == 1 || k >= 3) { c->rep_msg = NULL; }
+	if (k >= 3) { c->req_msg = m; }
+}
 static req0_sock *vp_mk_sock(void)
 {
 	req0_sock *s = &vp_sock_obj;
-	__CPROVER_havoc_object(s); __CPROVER_havoc_object(vp_ctx_obj); __CPROVER_havoc_object(vp_pipe_obj);
+	__CPROVER_havoc_object(s); __CPROVER_havoc_object(&vp_msg_a); __CPROVER_havoc_object(&vp_msg_b); __CPROVER_havoc_object(&vp_ctx_a); __CPROVER_havoc_object(&vp_ctx_b);
+	__CPROVER_havoc_object(&vp_pipe_a); __CPROVER_havoc_object(&vp_pipe_b); __CPROVER_havoc_object(&vp_pipe_c);
 	vp_nctx = 0; vp_npipe = 0;
 	s->master.sock = s; g_sock = s;
 	vp_list_init(&s->ready_pipes, offsetof(req0_pipe, node));
@@ -42,7 +52,7 @@ static req0_ctx *vp_mk_ctx(req0_sock *s, int master)
 	if (master) {
 		c = &s->master;
 	} else {
-		c = &vp_ctx_obj[vp_nctx++];
+		c = (vp_nctx++ == 0) ? &vp_ctx_a : &vp_ctx_b;
 		c->sock = s;
 	}
 	vp_node_idle(&c->send_node); vp_node_idle(&c->pipe_node); vp_node_idle(&c->retry_node);
@@ -50,7 +60,8 @@ static req0_ctx *vp_mk_ctx(req0_sock *s, int master)
 }
 static req0_pipe *vp_mk_pipe(req0_sock *s)
 {
-	req0_pipe *p = &vp_pipe_obj[vp_npipe++];
+	req0_pipe *p = (vp_npipe == 0) ? &vp_pipe_a : (vp_npipe == 1) ? &vp_pipe_b : &vp_pipe_c;
+	vp_npipe++;
 	p->req = s;
 	vp_node_idle(&p->node);
 	vp_list_init(&p->contexts, offsetof(req0_ctx, pipe_node));
@@ -168,7 +179,7 @@ void h_req0_pipe_close(void)
 	req0_pipe *p2 = vp_mk_pipe(s); g_p2 = p2; vp_list_add(&s->ready_pipes, &p2->node);
 #endif
 #if PC_N >= 1
-	req0_ctx *c1 = vp_mk_ctx(s, 0); g_c1 = c1; vp_list_add(&p->contexts, &c1->pipe_node);
+	req0_ctx *c1 = vp_mk_ctx(s, 0); g_c1 = c1; vp_list_add(&p->contexts, &c1->pipe_node); vp_ctx_kind(c1, PC_K1, &vp_msg_a);
 #if PC_K1 >= 2
 	vp_list_add(&s->retry_queue, &c1->retry_node);
 #endif
@@ -177,13 +188,21 @@ void h_req0_pipe_close(void)
 #endif
 #endif
 #if PC_N >= 2
-	req0_ctx *c2 = vp_mk_ctx(s, 0); g_c2 = c2; vp_list_add(&p->contexts, &c2->pipe_node);
+	req0_ctx *c2 = vp_mk_ctx(s, 0); g_c2 = c2; vp_list_add(&p->contexts, &c2->pipe_node); vp_ctx_kind(c2, PC_K2, &vp_msg_b);
 #if PC_K2 >= 2
 	vp_list_add(&s->retry_queue, &c2->retry_node);
 #endif
 #if PC_K2 == 4
 	vp_list_add(&s->send_queue, &c2->send_node);
 #endif
+#endif
+	/* -DPC_RV1/-DPC_RV2: the unit fixes the resend time of that context to a representative value (its sign
+	 * decides every branch; the units with one context leave it symbolic) */
+#ifdef PC_RV1
+	c1->req_retry = PC_RV1;
+#endif
+#ifdef PC_RV2
+	c2->req_retry = PC_RV2;
 #endif
 	req0_pipe_close(p);
 	VP_CANARY();
